@@ -202,6 +202,8 @@ fn main() {
             for mp in mps {
                 for pat in NULL_PATTERNS {
                     if let Some(mut rng) = ctx.sweep_case() {
+                        // caller-supplied VecDeque buffers: half of the cases with a rotated (physically wrapped) ring buffer
+                        tvmon::rollreg::BUF_ROT.with(|r| r.set(if rng.chance(0.5) { 0 } else { 1 + rng.below(8) }));
                         let class = *rng.pick(&INT_CLASSES);
                         let x = series(&mut rng, class, pat, len);
                         let cy = *rng.pick(&INT_CLASSES);
@@ -221,6 +223,8 @@ fn main() {
     let nrand = ctx.cbudget(200, 4000);
     for k in 0..nrand {
         if let Some(mut rng) = ctx.random_case() {
+            // caller-supplied VecDeque buffers: half of the cases with a rotated (physically wrapped) ring buffer
+            tvmon::rollreg::BUF_ROT.with(|r| r.set(if rng.chance(0.5) { 0 } else { 1 + rng.below(8) }));
             let len = rng.range_usize(0, 60);
             let w = rng.range_usize(1, len + 3);
             let mp = if rng.chance(0.3) { None } else { Some(rng.range_usize(0, w)) };
